@@ -528,29 +528,44 @@ Proof.
   split; [intros _; lia|apply keeps_self_refl].
 Qed.
 
+(** the slot vector of a clone: either the original's, or (detached clone)
+    the [NSLOTS] empty slots *)
+Lemma cloned_slots_cases ss : cloned_slots ss = ss \/ cloned_slots ss = empty_slots.
+Proof. unfold cloned_slots. destruct (clone_detached ss); auto. Qed.
+
+Lemma cloned_slots_length ss : length (cloned_slots ss) <= Nat.max (length ss) 4.
+Proof.
+  destruct (cloned_slots_cases ss) as [-> | ->]; [lia|].
+  change (length empty_slots) with 4. lia.
+Qed.
+
 Lemma act_make_mut K M s self r0 s1 self1 r push :
+  4 <= M ->
   exec_act s self (AMakeMut r0) = AO s1 self1 r push -> act_ok K M s self s1 self1 push.
 Proof.
-  intros H. cbn [exec_act] in H.
+  intros HM H. cbn [exec_act] in H.
   destruct (reg_get s r0) as [o|w|o|p|] eqn:E; try (triv H).
   destruct (getb (heap_of s) o) as [b|] eqn:G; [|discriminate].
   (* the clone branch *)
   assert (D : forall x,
     match value b with
     | Some p =>
-        lift s self (clone_slots (heap_of s) (slots p)) (fun s2 =>
+        lift s self (clone_slots (heap_of s) (cloned_slots (slots p))) (fun s2 =>
           AO (set_reg (set_heap s2 (heap_of s2 ++
-                 [new_box {| pid := length (heap_of s); slots := slots p; script := [] |}]))
+                 [new_box {| pid := length (heap_of s); slots := cloned_slots (slots p);
+                             script := [] |}]))
                 r0 (RStrong (length (heap_of s)))) self RUnit [FDropStrong o])
     | None => AHalt (HFault FkValueMoved o)
     end = x -> x = AO s1 self1 r push -> act_ok K M s self s1 self1 push).
   { intros x <- H'. destruct (value b) as [p|] eqn:V; [|discriminate]. unfold lift in H'.
-    destruct (clone_slots (heap_of s) (slots p)) as [h1|] eqn:E1; [|discriminate].
+    destruct (clone_slots (heap_of s) (cloned_slots (slots p))) as [h1|] eqn:E1; [|discriminate].
     inv_AO H'. apply clone_slots_vals in E1. apply vals_getb in G. rewrite V in G.
+    pose proof (cloned_slots_length (slots p)) as Hc.
     unfold act_ok, sw, hw, hb. cbn [heap_of regs set_reg set_heap mk kw fw].
     rewrite vals_app, vw_app, E1. cbn [new_box value ovw obnd]. unfold pw; cbn [script slots length].
     pose proof (rsw_upd0 K (regs s) r0 (RStrong (length (heap_of s))) eq_refl) as U.
-    split; [intros B; apply vb_app; [exact B|cbn [obnd slots]; eapply vb_nth; eauto]|].
+    split; [intros B; apply vb_app; [exact B|]; cbn [obnd slots];
+            pose proof (vb_nth _ _ _ _ B G) as Hp; lia|].
     split; [|apply keeps_self_refl].
     intros B. pose proof (vb_nth _ _ _ _ B G) as Hp. lia. }
   destruct (strong b) as [n|]; [|exact (D _ eq_refl H)].
